@@ -437,9 +437,11 @@ func idPreimage(p *channel.Params) []byte {
 	return buf.Bytes()
 }
 
-func noncePreimage(prop client.ChannelProposal, acc client.ChannelProposalAccept) []byte {
-	a, b := prop.Base().NonceShare, acc.Base().NonceShare
-	return append(append([]byte{}, a[:]...), b[:]...)
+// noncePreimage: what the property says the nonce is the hash of: the proposer's share as sent in
+// the proposal, then the share the responder chose.
+func noncePreimage(prop client.ChannelProposal, responderShare client.NonceShare) []byte {
+	a := prop.Base().NonceShare
+	return append(append([]byte{}, a[:]...), responderShare[:]...)
 }
 
 func obsTerm(ch *client.Channel, npre []byte) string {
@@ -578,13 +580,30 @@ func (d *driver) recordOpen(kind string, from, to *party, ctxP, ctxR ctxSnap, o 
 	// the registries as they were before, the wallets as they are when completeCPP runs (the
 	// responder creates its participant account while accepting)
 	ctxP.wallet, ctxR.wallet = from.accounts(), to.accounts()
-	npre := noncePreimage(o.prop, o.acc)
-	term := hx.App("COpen", d.w.ctx(ctxP, true), d.w.ctx(ctxR, true), propTerm(o.prop), accTerm(o.acc), obsTerm(o.chP, npre), obsTerm(o.chR, npre))
+	// the accept message as it travelled over the bus (what the proposer completed the protocol with)
+	// and the nonce pre-image the property demands: (proposer's share, the share the responder chose)
+	seen := d.wd.bus.accepts(o.prop.Base().ProposalID)
+	wireAcc := o.acc
+	if len(seen) > 0 {
+		wireAcc = seen[0]
+	}
+	npre := noncePreimage(o.prop, o.share)
+	term := hx.App("COpen", d.w.ctx(ctxP, true), d.w.ctx(ctxR, true), propTerm(o.prop), accTerm(wireAcc), hx.Hex(o.share[:]), obsTerm(o.chP, npre), obsTerm(o.chR, npre))
 	idx := d.w.add(term, class)
 	d.res.Count(class, "opened", fmt.Sprintf("%s/%d/gmp%d", class, len(d.assets), d.gmp), false)
 	d.res.Sample(map[string]interface{}{"class": class, "id": fmt.Sprintf("%x", o.chP.ID())})
 	bad := func(what string) { d.fail("client.completeCPP", class, what, idx, propTerm(o.prop)) }
 	pp, pr := o.chP.Params(), o.chR.Params()
+	// a nonce contribution from each side: the accept message carries the share the responder chose
+	if len(seen) != 1 {
+		bad(fmt.Sprintf("%d accept messages for the proposal on the bus", len(seen)))
+	}
+	if wireAcc.Base().NonceShare != o.share || o.acc.Base().NonceShare != o.share {
+		d.fail("client.ChannelProposal.Accept", class, "the accept message does not carry the nonce share the responder chose (WithNonce): the responder's contribution to the channel ID is lost", idx, propTerm(o.prop))
+	}
+	if wireAcc.Base().ProposalID != o.prop.Base().ProposalID {
+		bad("the accept message answers another proposal")
+	}
 	// identical parameters and ID, same participant order
 	if pp.ID() != pr.ID() || o.chP.ID() != o.chR.ID() {
 		bad("proposer and responder obtained different channel IDs")
@@ -609,7 +628,10 @@ func (d *driver) recordOpen(kind string, from, to *party, ctxP, ctxR ctxSnap, o 
 	}
 	h := sha3.Sum256(npre)
 	if new(big.Int).SetBytes(h[:]).Cmp(pp.Nonce) != 0 {
-		bad("the nonce is not the hash of the proposer's and the responder's share")
+		d.fail("client.calcNonce", class, "the channel nonce is not the hash of (proposer's share, responder's chosen share)", idx, propTerm(o.prop))
+	}
+	if new(big.Int).SetBytes(h[:]).Cmp(pr.Nonce) != 0 {
+		d.fail("client.calcNonce", class, "the responder's channel nonce is not the hash of (proposer's share, responder's chosen share)", idx, propTerm(o.prop))
 	}
 	// same fully signed version-0 state with the proposed balances and data
 	sp, sr := o.chP.State(), o.chR.State()
@@ -650,11 +672,44 @@ func (d *driver) openLedger(from, to *party, withApp bool) *client.Channel {
 	}
 	d.pid(prop)
 	cp, cr := d.snap(from), d.snap(to)
-	o := d.wd.open(from, to, prop, nil)
+	o := d.wd.open(from, to, prop, nil, to.share())
 	if !d.recordOpen("ledger", from, to, cp, cr, o) {
 		return nil
 	}
+	d.reopen("ledger", from, to, o)
 	return o.chP
+}
+
+// reopen repeats an opening with the same proposal contents (in particular the same proposer share,
+// challenge duration, app and participants) and another responder share: the responder's
+// contribution alone must yield another channel, so the second opening succeeds with another ID.
+func (d *driver) reopen(kind string, from, to *party, o openRes) {
+	var prop client.ChannelProposal
+	var part amap
+	switch x := o.prop.(type) {
+	case *client.LedgerChannelProposalMsg:
+		c := *x
+		c.InitBals, c.FundingAgreement = cloneAlloc(x.InitBals), x.FundingAgreement.Clone()
+		prop, part = &c, o.acc.(*client.LedgerChannelProposalAccMsg).Participant
+	case *client.SubChannelProposalMsg:
+		c := *x
+		c.InitBals, c.FundingAgreement = cloneAlloc(x.InitBals), x.FundingAgreement.Clone()
+		prop = &c
+	case *client.VirtualChannelProposalMsg:
+		c := *x
+		c.InitBals, c.FundingAgreement = cloneAlloc(x.InitBals), x.FundingAgreement.Clone()
+		prop, part = &c, o.acc.(*client.VirtualChannelProposalAccMsg).Responder
+	}
+	d.pid(prop)
+	cp, cr := d.snap(from), d.snap(to)
+	o2 := d.wd.open(from, to, prop, part, to.share())
+	class := "open/" + kind + "-same-proposer-share"
+	if !d.recordOpen(kind+"-same-proposer-share", from, to, cp, cr, o2) {
+		return
+	}
+	if o2.chP.ID() == o.chP.ID() || o2.chP.Params().Nonce.Cmp(o.chP.Params().Nonce) == 0 {
+		d.fail("client.calcNonce", class, "two openings that differ only in the responder's nonce share obtained the same channel ID", -1, propTerm(prop))
+	}
 }
 
 // within returns balances not above the given ones.
@@ -667,16 +722,18 @@ func (d *driver) openSub(from, to *party, parent channel.ID) {
 	if !ok {
 		return
 	}
-	al := d.alloc(d.within(ps.state.Balances, func(p int) int { return p }))
-	// the responder's copy of the parent may be ahead or behind by nothing: both are quiescent here
+	// a quarter of the parent's funds at most: the opening is repeated with the same balances
+	al := d.alloc(func(a, p int) *big.Int { return d.bigBal(new(big.Int).Rsh(ps.state.Balances[a][p], 2)) })
 	prop, err := client.NewSubChannelProposal(parent, d.cd(), al, d.opts(from, d.g.R.Intn(3) == 0)...)
 	if err != nil {
 		panic(err)
 	}
 	d.pid(prop)
 	cp, cr := d.snap(from), d.snap(to)
-	o := d.wd.open(from, to, prop, nil)
-	d.recordOpen("sub", from, to, cp, cr, o)
+	o := d.wd.open(from, to, prop, nil, to.share())
+	if d.recordOpen("sub", from, to, cp, cr, o) {
+		d.reopen("sub", from, to, o)
+	}
 }
 
 // virtualProposal builds a well-formed virtual channel proposal from -> to through the hub I.
@@ -721,8 +778,10 @@ func (d *driver) openVirtual(from, to *party) {
 		return
 	}
 	cp, cr := d.snap(from), d.snap(to)
-	o := d.wd.open(from, to, prop, nil)
-	d.recordOpen("virtual", from, to, cp, cr, o)
+	o := d.wd.open(from, to, prop, nil, to.share())
+	if d.recordOpen("virtual", from, to, cp, cr, o) {
+		d.reopen("virtual", from, to, o)
+	}
 }
 
 // ---------- delivered proposals ----------
@@ -929,6 +988,7 @@ func (d *driver) otherAssets(al *channel.Allocation) {
 func (d *driver) subMutants(ctx ctxSnap, full bool) []mutant {
 	var out []mutant
 	// parents in which the sender proposed (peer 0 = B) and parents in which we proposed
+	doneKind := map[string]bool{}
 	for _, par := range ctx.chans {
 		par := par
 		if !sameWire(par.peers[0], d.B.addr) && !sameWire(par.peers[1], d.B.addr) {
@@ -938,6 +998,10 @@ func (d *driver) subMutants(ctx ctxSnap, full bool) []mutant {
 		if par.idx == 0 {
 			kind = "sub-own-parent" // the parent's proposer is the receiver: peers = (receiver, sender)
 		}
+		if doneKind[kind] {
+			continue // one parent of each kind
+		}
+		doneKind[kind] = true
 		mk := func() client.ChannelProposal { return d.subProposal(par) }
 		if kind == "sub" {
 			if full {
@@ -1418,8 +1482,10 @@ func (d *driver) world(k int) {
 		}
 		d.pid(prop)
 		cp, cr := d.snap(d.B), d.snap(d.A)
-		first = d.wd.open(d.B, d.A, prop, nil)
-		d.recordOpen("ledger", d.B, d.A, cp, cr, first)
+		first = d.wd.open(d.B, d.A, prop, nil, d.A.share())
+		if d.recordOpen("ledger", d.B, d.A, cp, cr, first) {
+			d.reopen("ledger", d.B, d.A, first)
+		}
 	}
 	l2 := d.openLedger(d.A, d.B, false)
 	if k%2 == 0 {
